@@ -214,8 +214,17 @@ def sym_sqrt(x):
     try:
         with NoTracing():
             space = context_statespace()
+            # memoised per path on the z3 term, so sqrt of the same expression is the same value
+            memo = getattr(space, "_verif_sqrt_memo", None)
+            if memo is None:
+                memo = {}
+                setattr(space, "_verif_sqrt_memo", memo)
+            key = x.var.sexpr()
+            if key in memo:
+                return bl.RealBasedSymbolicFloat(memo[key])
             r = z3.Real(f"sqrt_{space.uniq()}")
-            space.add(z3.And(r >= 0, r * r == x.var))
+            space.add(z3.And(r >= 0, r * r == x.var, z3.Implies(x.var > 0, r > 0)))
+            memo[key] = r
             return bl.RealBasedSymbolicFloat(r)
     except Exception as e:
         raise EngineBug(f"sym_sqrt: {e!r}")
